@@ -172,8 +172,207 @@ def translate_function(path, func, gen_name):
     return text, src
 
 
+
+# ---------------------------------------------------------------------------------------------
+# array mode: typed translation of numpy code over boolean / index / integer arrays
+# (target: coq/theories/Model/PyArr.v).  Types: barr (list bool, with its container kind k_<name>),
+# zarr (list Z), iarr (list nat), marr (boolean mask), zint (Z).
+
+class TrArr:
+    def __init__(self, module_tree, params):
+        self.ty = dict(params)
+        self.imports = {}
+        for n in module_tree.body:
+            if isinstance(n, ast.ImportFrom):
+                for a in n.names:
+                    self.imports[a.asname or a.name] = '%s.%s' % (n.module, a.name)
+            elif isinstance(n, ast.Import):
+                for a in n.names:
+                    self.imports[a.asname or a.name] = a.name
+        if self.imports.get('np') != 'numpy':
+            raise Unsupported('`np` is not numpy')
+        self.tmp = 0
+
+    def name(self, e, want=None):
+        if not isinstance(e, ast.Name) or e.id not in self.ty:
+            raise Unsupported('expected a bound name, got ' + ast.dump(e)[:80])
+        if want and self.ty[e.id] != want:
+            raise Unsupported('%s has type %s, expected %s' % (e.id, self.ty[e.id], want))
+        return 'v_' + e.id
+
+    @staticmethod
+    def np_call(e, fn):
+        return isinstance(e, ast.Call) and isinstance(e.func, ast.Attribute) and isinstance(e.func.value, ast.Name) \
+            and e.func.value.id == 'np' and e.func.attr == fn
+
+    @staticmethod
+    def const_int(e, lo=0, hi=64):
+        if isinstance(e, ast.Constant) and isinstance(e.value, int) and not isinstance(e.value, bool) and lo <= e.value <= hi:
+            return e.value
+        raise Unsupported('expected a small integer literal')
+
+    def pure(self, e):
+        """-> (code, type) for expressions that cannot fail"""
+        if isinstance(e, ast.Name):
+            return self.name(e), self.ty[e.id]
+        if self.np_call(e, 'diff'):
+            kw = {k.arg: k.value for k in e.keywords}
+            if len(e.args) != 1 or set(kw) != {'prepend', 'append'}:
+                raise Unsupported('np.diff arguments')
+            return '(np_diff_bool %s %d %d)' % (self.name(e.args[0], 'barr'), self.const_int(kw['prepend']), self.const_int(kw['append'])), 'zarr'
+        if self.np_call(e, 'flatnonzero'):
+            if len(e.args) != 1 or e.keywords:
+                raise Unsupported('np.flatnonzero arguments')
+            return '(np_flatnonzero %s)' % self.name(e.args[0], 'zarr'), 'iarr'
+        if isinstance(e, ast.Subscript) and isinstance(e.slice, ast.Slice):
+            sl = e.slice
+            if sl.upper is not None or sl.lower is None or sl.step is None or self.const_int(sl.step) != 2:
+                raise Unsupported('slice other than [c::2]')
+            return '(py_slice_from_step2 %d %s)' % (self.const_int(sl.lower), self.name(e.value, 'iarr')), 'iarr'
+        if isinstance(e, ast.Compare) and len(e.ops) == 1 and isinstance(e.ops[0], ast.Lt):
+            return '(np_lt_scalar %s %s)' % (self.name(e.left, 'zarr'), self.name(e.comparators[0], 'zint')), 'marr'
+        raise Unsupported('expression ' + ast.dump(e)[:80])
+
+    def failing(self, e):
+        """-> (code : result T, type) for expressions that numpy may refuse"""
+        if isinstance(e, ast.BinOp) and isinstance(e.op, ast.Sub):
+            return '(np_sub_idx %s %s)' % (self.name(e.left, 'iarr'), self.name(e.right, 'iarr')), 'zarr'
+        if isinstance(e, ast.Subscript) and isinstance(e.slice, ast.Name):
+            return '(np_mask %s %s)' % (self.name(e.value, 'iarr'), self.name(e.slice, 'marr')), 'iarr'
+        return None
+
+    def test(self, e):
+        if isinstance(e, ast.UnaryOp) and isinstance(e.op, ast.Not):
+            c = e.operand
+            if isinstance(c, ast.Call) and isinstance(c.func, ast.Name) and c.func.id == 'isinstance' and len(c.args) == 2 \
+                    and isinstance(c.args[1], ast.Attribute) and isinstance(c.args[1].value, ast.Name) \
+                    and c.args[1].value.id == 'np' and c.args[1].attr == 'ndarray':
+                self.name(c.args[0], 'barr')
+                return '(negb (a_is_ndarray k_%s))' % c.args[0].id
+        if isinstance(e, ast.Compare) and len(e.ops) == 1 and isinstance(e.ops[0], ast.Eq):
+            l, r = e.left, e.comparators[0]
+            if isinstance(l, ast.Call) and isinstance(l.func, ast.Name) and l.func.id == 'len' and len(l.args) == 1 and not l.keywords:
+                return '(Nat.eqb (length %s) %d)' % (self.name(l.args[0], 'barr'), self.const_int(r))
+        raise Unsupported('test ' + ast.dump(e)[:80])
+
+    def block(self, stmts):
+        if not stmts:
+            raise Unsupported('function can end without `return`')
+        s, tail = stmts[0], stmts[1:]
+        if isinstance(s, ast.Expr) and isinstance(s.value, ast.Constant) and isinstance(s.value.value, str):
+            return self.block(tail)
+        if isinstance(s, ast.Return):
+            if s.value is None:
+                raise Unsupported('bare return')
+            return '  Ok %s' % self.name(s.value, 'barr')
+        if isinstance(s, ast.If) and not s.orelse and len(s.body) == 1:
+            t = self.test(s.test)
+            b = s.body[0]
+            if isinstance(b, ast.Raise) and isinstance(b.exc, ast.Call) and isinstance(b.exc.func, ast.Name) \
+                    and b.exc.func.id == 'ValueError' and len(b.exc.args) == 1 and isinstance(b.exc.args[0], ast.Constant) \
+                    and isinstance(b.exc.args[0].value, str) and b.cause is None:
+                return '  if %s then Err EValue else\n%s' % (t, self.block(tail))
+            if isinstance(b, ast.Return) and b.value is not None:
+                return '  if %s then Ok %s else\n%s' % (t, self.name(b.value, 'barr'), self.block(tail))
+            raise Unsupported('if body')
+        if isinstance(s, ast.Expr) and isinstance(s.value, ast.Call) and isinstance(s.value.func, ast.Name) \
+                and s.value.func.id == 'check_param_range':
+            c = s.value
+            if self.imports.get('check_param_range') != 'bycycle.utils.checks.check_param_range':
+                raise Unsupported('check_param_range is not bycycle.utils.checks.check_param_range')
+            if len(c.args) != 3 or c.keywords or not isinstance(c.args[1], ast.Constant) or not isinstance(c.args[2], ast.Tuple) \
+                    or len(c.args[2].elts) != 2 or self.const_int(c.args[2].elts[0]) != 0:
+                raise Unsupported('check_param_range arguments')
+            hi = c.args[2].elts[1]
+            if not (isinstance(hi, ast.Attribute) and isinstance(hi.value, ast.Name) and hi.value.id == 'np' and hi.attr == 'inf'):
+                raise Unsupported('check_param_range upper bound')
+            return '  if negb (a_range_0_inf %s) then Err EValue else\n%s' % (self.name(c.args[0], 'zint'), self.block(tail))
+        if isinstance(s, ast.Assign) and len(s.targets) == 1:
+            tg, v = s.targets[0], s.value
+            if isinstance(tg, ast.Tuple) and isinstance(v, ast.Tuple) and len(tg.elts) == len(v.elts):
+                names = [t.id for t in tg.elts if isinstance(t, ast.Name)]
+                if len(names) != len(tg.elts) or len(set(names)) != len(names):
+                    raise Unsupported('tuple assignment targets')
+                used = {n.id for x in v.elts for n in ast.walk(x) if isinstance(n, ast.Name)}
+                if used & set(names):
+                    raise Unsupported('tuple assignment that reads its own targets')
+                out = ''
+                vals = [self.pure(x) for x in v.elts]
+                for n, (code, ty) in zip(names, vals):
+                    self.ty[n] = ty
+                    out += '  let v_%s := %s in\n' % (n, code)
+                return out + self.block(tail)
+            if isinstance(tg, ast.Name):
+                f = self.failing(v)
+                if f:
+                    self.ty[tg.id] = f[1]
+                    return '  do v_%s <- %s;\n%s' % (tg.id, f[0], self.block(tail))
+                code, ty = self.pure(v)
+                self.ty[tg.id] = ty
+                return '  let v_%s := %s in\n%s' % (tg.id, code, self.block(tail))
+            raise Unsupported('assignment target')
+        if isinstance(s, ast.For) and not s.orelse:
+            it, tg = s.iter, s.target
+            if not (isinstance(it, ast.Call) and isinstance(it.func, ast.Name) and it.func.id == 'zip' and len(it.args) == 2 and not it.keywords
+                    and isinstance(tg, ast.Tuple) and len(tg.elts) == 2 and all(isinstance(t, ast.Name) for t in tg.elts)):
+                raise Unsupported('for loop other than `for a, b in zip(x, y)`')
+            a, b = tg.elts[0].id, tg.elts[1].id
+            out, its = '', []
+            for x in it.args:
+                f = self.failing(x)
+                if not f or f[1] != 'iarr':
+                    raise Unsupported('zip argument')
+                its.append('it_%d' % self.tmp)
+                out += '  do it_%d <- %s;\n' % (self.tmp, f[0])
+                self.tmp += 1
+            if len(s.body) != 1:
+                raise Unsupported('loop body')
+            st = s.body[0]
+            if not (isinstance(st, ast.Assign) and len(st.targets) == 1 and isinstance(st.targets[0], ast.Subscript)
+                    and isinstance(st.targets[0].value, ast.Name) and isinstance(st.targets[0].slice, ast.Slice)
+                    and isinstance(st.value, ast.Constant) and st.value.value is False):
+                raise Unsupported('loop body other than `t[a:b] = False`')
+            sl, arr = st.targets[0].slice, st.targets[0].value.id
+            if not (isinstance(sl.lower, ast.Name) and sl.lower.id == a and isinstance(sl.upper, ast.Name) and sl.upper.id == b and sl.step is None):
+                raise Unsupported('loop slice')
+            self.name(st.targets[0].value, 'barr')
+            if a in self.ty or b in self.ty:
+                raise Unsupported('loop variable shadows a name')
+            out += ('  let v_%s := fold_left (fun v_%s it => let \'(v_%s, v_%s) := it in\n'
+                    '      py_setslice_false v_%s v_%s v_%s) (combine %s %s) v_%s in\n' % (arr, arr, a, b, arr, a, b, its[0], its[1], arr))
+            return out + self.block(tail)
+        raise Unsupported('statement ' + type(s).__name__)
+
+
+def translate_array_function(path, func, gen_name, params, ret):
+    txt = open(path).read()
+    tree = ast.parse(txt)
+    node, src = _src_of(path, func)
+    a = node.args
+    if a.vararg or a.kwarg or a.kwonlyargs or a.posonlyargs or node.decorator_list or [x.arg for x in a.args] != [p for p, _ in params]:
+        raise Unsupported('signature of ' + func)
+    tr = TrArr(tree, params)
+    body = tr.block(node.body)
+    binders = []
+    for p, ty in params:
+        if ty == 'barr':
+            binders.append('(k_%s : container) (v_%s : list bool)' % (p, p))
+        elif ty == 'zint':
+            binders.append('(v_%s : Z)' % p)
+        else:
+            raise Unsupported('parameter type')
+    head = ('(* GENERATED by harness/translate.py from %s:%s (sha256 of the function text %s).\n'
+            '   Do not edit: rewritten on every check run. *)\n'
+            'From Coq Require Import List Arith ZArith Bool.\nImport ListNotations.\n'
+            'From ByC Require Import Base.Result Model.Runs Model.TableRuns Model.PyArr.\n\n'
+            % (path, func, hashlib.sha256(src.encode()).hexdigest()[:16]))
+    return head + 'Definition %s %s : result (%s) :=\n%s.\n' % (gen_name, ' '.join(binders), ret, body), src
+
 # what is translated, and the fixed proof file that must compile against the generated definition
 TARGETS = {
+    'C08': [dict(path='/repo/bycycle/burst/utils.py', func='check_min_burst_cycles', gen_module='RunFilterGen',
+                 gen_name='check_min_burst_cycles_gen', proof='RunFilterGenProof.v', mode='array',
+                 params=[('is_burst', 'barr'), ('min_n_cycles', 'zint')], ret='list bool')],
     'C19': [dict(path='/repo/bycycle/group/utils.py', func='check_kwargs_shape', gen_module='ShapeCheckGen',
                  gen_name='check_kwargs_shape_gen', proof='ShapeCheckGenProof.v')],
 }
@@ -196,7 +395,10 @@ def check(prop, workdir):
         for f in os.listdir(gd):
             os.remove(os.path.join(gd, f))
         try:
-            text, src = translate_function(t['path'], t['func'], t['gen_name'])
+            if t.get('mode') == 'array':
+                text, src = translate_array_function(t['path'], t['func'], t['gen_name'], t['params'], t['ret'])
+            else:
+                text, src = translate_function(t['path'], t['func'], t['gen_name'])
         except (Unsupported, SyntaxError, OSError) as e:
             res['ok'] = False
             res['log'] += 'translator: %s: %s\n' % (t['func'], e)
